@@ -7,7 +7,8 @@ import circuitgraph as cg
 RULE = ("every circuit with <=2 inputs, optional constant and <=2 gates over all 8 types; one gate of each type at "
         "arity 1..4 fed by inputs and constants; seeded random lint-clean acyclic blackbox-free circuits (<=4 inputs, "
         "constants, shared fan-in between and-/or-family gates, encoder-like names); all 3^|inputs| ternary patterns "
-        "x both binary values under every X; non-trivial = circuit has a multi-input gate")
+        "x both binary values under every X; non-trivial = circuit has a multi-input gate"
+        "; plus: names derived from / colliding between the library's own naming templates, shuffled node insertion order; a transform exception or a cyclic result is a failure")
 BOUND = "circuits <= 12 nodes, <= 4 inputs (81 patterns x <=16 fillings); 4/16 hash seeds"
 
 
